@@ -866,6 +866,16 @@ def _results_by_tag(net):
 
 def _cmp_results(a, b, only=None):
     diffs = []
+    # Averaged per-element results come from grouped sums implemented as cumsum differences over the
+    # whole table: their absolute error scales with the largest magnitude in the column (a flowless
+    # pipe has lambda = 64/Re ~ 1e7), not with the element's own value.  Noise floor: 1e-12 * column max.
+    colmax = {}
+    for src in (a, b):
+        for tag, row in src.items():
+            t = tag.split("#")[0]
+            for c, v in row.items():
+                if isinstance(v, float) and np.isfinite(v):
+                    colmax[(t, c)] = max(colmax.get((t, c), 0.0), abs(v))
     for tag in sorted(set(a) & set(b)):
         if only is not None and tag not in only:
             continue
@@ -878,7 +888,8 @@ def _cmp_results(a, b, only=None):
             if isinstance(x, float) and isinstance(y, float):
                 if np.isnan(x) and np.isnan(y):
                     continue
-                if np.isnan(x) != np.isnan(y) or not np.isclose(x, y, rtol=1e-7, atol=netmodel._atol_for(c, 1e-9)):
+                atol = max(netmodel._atol_for(c, 1e-9), 1e-12 * colmax.get((tag.split("#")[0], c), 0.0))
+                if np.isnan(x) != np.isnan(y) or not np.isclose(x, y, rtol=1e-7, atol=atol):
                     diffs.append("%s.%s" % (tag.split("#")[0], c))
     return sorted(set(diffs))
 
